@@ -76,6 +76,29 @@ def run(ctx):
     finally:
         vlib.coq_eval_cases = orig
 
+def replay(ctx, path):
+    """Re-evaluate one stored case (endpoint description, configuration, the real renderer's parsed chains, packets)
+    with the model and the oracle inside Coq.  The stored case carries the implementation's own output, so the
+    verdict does not depend on the tree; to see the current tree's output for the same endpoint run ./check C09."""
+    import json
+    d = json.load(open(path))
+    c = d.get("case") or d.get("first_case")
+    if not c:
+        print(json.dumps(d, indent=1)[:4000]); return 0
+    ok, log = vlib.coq_build(vlib.prop_targets("Common") + vlib.prop_targets("C08") + vlib.prop_targets("C09"))
+    failing, _ = vlib.coq_eval_cases(ctx, CFG["imports"], CFG["checker"], [c["coq"]])
+    s = c.get("sample", {})
+    print("endpoint:", s.get("endpoint"), s.get("direction"), s.get("flavor"), "ipv%s" % s.get("ipver"),
+          "policies:", s.get("policies"), "staged:", s.get("staged"))
+    for name, rules in (s.get("endpoint_and_group_chains") or {}).items():
+        print("  chain", name)
+        for t in rules: print("     ", t)
+    if not failing:
+        print("model agrees with the stored implementation output; oracle accepts it"); return 0
+    for (_, agree, okk) in failing:
+        print("model == implementation:", agree, "| specification oracle accepts implementation output:", okk)
+    return 1
+
 MANIFEST = dict(
     category="proof",
     text="Theorems over an executable model of endpointIptablesChain, PolicyGroupToIptablesChains and the policy/profile chain wrappers, "
